@@ -88,8 +88,14 @@ BigCapPart(d) ==
            data |-> [iota |-> n, order |-> <<"shuffle", 4242 + n>>],
            q |-> [n |-> qi, p |-> -5], conf |-> Conf(ki, 12), li |-> 12])
 
+\* populations far beyond 2^32 (index-only entry points; a * 2^p with p >= 5 so that q * n is an integer)
+BigPopPart(d) ==
+  \A nb \in {[a |-> 5, p |-> 31], [a |-> 152587890, p |-> 6], [a |-> 931322575, p |-> 10], [a |-> 1, p |-> 40]} :
+     \A qj \in {1, 3, 16, 29, 31} : \A ki \in 1..3 : \A li \in LevSel :
+        Emit([op |-> "quant.big", nbig |-> nb, q |-> [n |-> qj, p |-> -5], qj |-> qj, conf |-> Conf(ki, li), li |-> li])
+
 Next == /\ ~done
         /\ done' = TRUE
-        /\ CASE Part = "ranks" -> RanksPart(done) [] Part = "perm" -> PermPart(done) [] Part = "shuffle" -> (ShufflePart(done) /\ IotaPart(done) /\ BigCapPart(done))
+        /\ CASE Part = "ranks" -> (RanksPart(done) /\ BigPopPart(done)) [] Part = "perm" -> PermPart(done) [] Part = "shuffle" -> (ShufflePart(done) /\ IotaPart(done) /\ BigCapPart(done))
 Spec == Init /\ [][Next]_done
 =============================================================================
